@@ -35,9 +35,37 @@ def mk_chooser(kind, rng, bits=None):
     return choose
 
 
-def oracle(script, r) -> list[str]:
+def expected_rewards(script, losses):
+    """reward of every agent-chosen batch by the published rule, from that very batch's outcome: (reference - best)/reference when the best
+    loss decreased, else 0; the reference is the best loss so far (set by the bootstrap batch)"""
+    out, ref, li, batch = {}, None, 0, 0
+    for n, fail in script:
+        for _ in range(n):
+            batch += 1
+            l = losses[li % len(losses)]; li += 1
+            if ref is None:
+                ref = l
+                continue
+            if l < ref:
+                out[batch] = None if (ref == 0 or abs(ref) == float("inf") or abs(l) == float("inf")) else (ref - l) / ref
+                ref = l
+            else:
+                out[batch] = 0.0
+    return out
+
+
+def oracle(script, r, losses=None) -> list[str]:
     """the statements of C10 on the recorded real execution"""
     errs = []
+    if losses is not None and not r["deadlock"]:
+        want = expected_rewards(script, losses)
+        for (b, a, rew) in r["learned"]:
+            w = want.get(b, "?")
+            if w is None or w == "?":
+                continue
+            if not (rew == w or (rew != rew and w != w)):
+                errs.append(f"the reward learned for batch {b} is {rew!r}, that batch's own outcome gives {w!r}")
+                break
     if r["deadlock"]:
         errs.append(f"deadlock: {r['deadlock']}")
         return errs
@@ -106,9 +134,12 @@ def run(chk: Check):
         losses = rng.choice([[10.0 - k for k in range(9)], [5.0, 5.0, 4.0, 6.0, 4.0, 3.5, 7.0, 1.0, 1.0], [3.0] * 9,
                              # a perfect fit (best loss exactly 0.0), ties at it, negative losses, a diverging first batch
                              [4.0, 0.0, 1.0, 2.0, 0.0, 0.0, 3.0, 0.0, 1.0], [0.0] * 9, [2.0, -1.0, -1.0, -3.5, 0.0, -3.5, 1.0, -4.0, 2.0],
-                             [inf, inf, 2.0, inf, 1.0, 1.0, 0.5, inf, 0.25]])
-        if len(configs) < 2:      # always: one perfect-fit run and one diverging first batch, with batches after them
-            losses = [[4.0, 0.0, 1.0, 2.0, 0.0, 0.0, 3.0, 0.0, 1.0], [inf, inf, 2.0, inf, 1.0, 1.0, 0.5, inf, 0.25]][len(configs)]
+                             [inf, inf, 2.0, inf, 1.0, 1.0, 0.5, inf, 0.25],
+                             # slow late-stage convergence: improvements by a relative 1e-10 .. 1e-9
+                             [1.0, 1.0 - 4e-10, 2.0, 1.0 - 1.6e-9, 0.5, 0.5 * (1 - 2e-10), 0.5, 0.5 * (1 - 9e-10), 0.1]])
+        if len(configs) < 3:      # always: one perfect-fit run, one diverging first batch, one slow convergence, with batches after them
+            losses = [[4.0, 0.0, 1.0, 2.0, 0.0, 0.0, 3.0, 0.0, 1.0], [inf, inf, 2.0, inf, 1.0, 1.0, 0.5, inf, 0.25],
+                      [1.0, 1.0 - 4e-10, 2.0, 1.0 - 1.6e-9, 0.5, 0.5 * (1 - 2e-10), 0.5, 0.5 * (1 - 9e-10), 0.1]][len(configs)]
             script = [(3, False), (2, False)]
         chk.count("losses:" + ("zero" if 0.0 in losses else "inf" if inf in losses else "negative" if min(losses) < 0 else "positive"))
         configs.append({"script": script, "losses": losses, "agent": rng.choice(["eps", "eps", "scripted"]), "agent_seed": rng.randrange(100),
@@ -130,7 +161,7 @@ def run(chk: Check):
                       "executed": r["executed"], "first_events": [f"{w}:{e[0]}" for w, e in r["events"][:14]]}
             chk.case([cfg, [int(m) for m in r["moves"]]], r["choice_points"] >= 3, sample)
             chk.count("schedule:" + kind); chk.count("failing_session" if any(f for _, f in cfg["script"]) else "clean_sessions")
-            for e in oracle(cfg["script"], r)[:3]:
+            for e in oracle(cfg["script"], r, cfg["losses"])[:3]:
                 chk.fail("RL exchange: " + e, {"case": {"cfg": cfg, "moves": [int(m) for m in r["moves"]], "schedule": kind}})
             if ref is None:
                 ref = key
